@@ -122,7 +122,9 @@ def leaves_concrete(st, ref):
     return bool(o.fields.get("@done"))
 
 
-def pull(self, st, ref, node, _depth=0):
+def pull(self, st, ref, node, _depth=0, _seen=None):
+    if _seen is None:
+        _seen = set()
     o = st.obj(ref)
     if "@gen" in o.fields or "@genc" in o.fields:
         if not pure_generator_object(self, st, ref):
@@ -132,7 +134,7 @@ def pull(self, st, ref, node, _depth=0):
             if k != "val":
                 res.append((s, k, v))
             else:
-                res.extend(pull(self, s, ref, node, _depth))
+                res.extend(pull(self, s, ref, node, _depth, _seen))
         return res
     if o.items is not None:
         pos = o.fields.get("@pos", 0)
@@ -149,11 +151,13 @@ def pull(self, st, ref, node, _depth=0):
         if not (seq.nonempty and not o.fields.get("@started")):
             s0 = st.fork()
             s0.wobj(ref).fields["@done"] = True
+            self.emit(s0, ("loopexit", id(node), seq.name))
             out.append((s0, "stop", None))
         s1 = st.fork()
         s1.wobj(ref).fields["@started"] = True
         for (s2, elem, label) in seq.factory(self, s1):
             s2.note("%s: next(%s): %s" % (self.loc(node), seq.name, label))
+            self.emit(s2, ("iter", id(node), seq.name, elem))
             out.append((s2, "val", elem))
         return out
     if o.fields.get("@done"):
@@ -165,7 +169,7 @@ def pull(self, st, ref, node, _depth=0):
         for r in srcs:
             nxt = []
             for (s, vals) in states:
-                for (s2, k, v) in pull(self, s, r, node, _depth):
+                for (s2, k, v) in pull(self, s, r, node, _depth, _seen):
                     if k == "val":
                         nxt.append((s2, vals + [v]))
                     elif k == "stop":
@@ -194,7 +198,7 @@ def pull(self, st, ref, node, _depth=0):
         if _depth > 64:
             raise _U()("filter() over a source that does not end at %s" % self.loc(node))
         res = []
-        for (s, k, v) in pull(self, st, srcs[0], node, _depth):
+        for (s, k, v) in pull(self, st, srcs[0], node, _depth, _seen):
             if k != "val":
                 if k == "stop":
                     s.wobj(ref).fields["@done"] = True
@@ -209,14 +213,14 @@ def pull(self, st, ref, node, _depth=0):
                     if b:
                         res.append((s3, "val", v))
                     else:
-                        res.extend(pull(self, s3, ref, node, _depth + 1))
+                        res.extend(_again(self, s3, ref, node, _depth, _seen))
         return res
     if op in ("takewhile", "dropwhile"):
         state = o.fields.get("@state")
         if op == "takewhile" and state == "closed":
             return [(st, "stop", None)]
         res = []
-        for (s, k, v) in pull(self, st, srcs[0], node, _depth):
+        for (s, k, v) in pull(self, st, srcs[0], node, _depth, _seen):
             if k != "val" or (op == "dropwhile" and state == "passing"):
                 res.append((s, k, v))
                 continue
@@ -234,7 +238,7 @@ def pull(self, st, ref, node, _depth=0):
                     elif b:
                         if _depth > 10000:
                             raise _U()("dropwhile over a source that does not end at %s" % self.loc(node))
-                        res.extend(pull(self, s3, ref, node, _depth + 1))
+                        res.extend(_again(self, s3, ref, node, _depth, _seen))
                     else:
                         s3.wobj(ref).fields["@state"] = "passing"
                         res.append((s3, "val", v))
@@ -244,10 +248,10 @@ def pull(self, st, ref, node, _depth=0):
         if idx >= len(srcs):
             return [(st, "stop", None)]
         res = []
-        for (s, k, v) in pull(self, st, srcs[idx], node, _depth):
+        for (s, k, v) in pull(self, st, srcs[idx], node, _depth, _seen):
             if k == "stop":
                 s.wobj(ref).fields["@idx"] = idx + 1
-                res.extend(pull(self, s, ref, node, _depth))
+                res.extend(pull(self, s, ref, node, _depth, _seen))
             else:
                 res.append((s, k, v))
         return res
@@ -256,17 +260,29 @@ def pull(self, st, ref, node, _depth=0):
         if stop is not None and cnt >= stop:
             return [(st, "stop", None)]
         res = []
-        for (s, k, v) in pull(self, st, srcs[0], node, _depth):
+        for (s, k, v) in pull(self, st, srcs[0], node, _depth, _seen):
             if k != "val":
                 res.append((s, k, v))
                 continue
             s.wobj(ref).fields["@cnt"] = cnt + 1
             if cnt < start:
-                res.extend(pull(self, s, ref, node, _depth))
+                res.extend(pull(self, s, ref, node, _depth, _seen))
             else:
                 res.append((s, "val", v))
         return res
     raise _U()("iterator kind %s at %s" % (op, self.loc(node)))
+
+
+def _again(self, st, ref, node, _depth, seen):
+    """the element was skipped (filter / dropwhile): pull again - unless this very state has skipped one before (an abstract source
+    yields 'one more element' for ever; what follows from an identical state is already among the outcomes)"""
+    probe = st.fork()                   # key() collects garbage: on a copy, so that temporaries of the enclosing expression survive
+    probe.frames[-1]["@pull"] = ref
+    key = (ref.oid, probe.key())
+    if key in seen:
+        return []
+    seen.add(key)
+    return pull(self, st, ref, node, _depth + 1, seen)
 
 
 def _apply(self, st, fn, args, node):
@@ -451,6 +467,29 @@ def call_ext(self, st, name, args, kwargs, node):
         return [(st, "val", st.alloc(HObj("dict", {"@default_factory": args[0] if args else None}, kind="dict", items=[])))]
     if name == "collections.OrderedDict" and not args and not kwargs:
         return [(st, "val", st.alloc(HObj("dict", kind="dict", items=[])))]
+    if name in ("functools.reduce", "reduce") and 2 <= len(args) <= 3 and not kwargs and not isinstance(args[1], Top):
+        # reduce(f, xs[, init]) over a fully known sequence: the fold, call by call
+        try:
+            kind, seq = self.iter_values(st, args[1], node)
+        except Exception:       # noqa
+            kind, seq = None, None
+        if kind == "concrete":
+            seq = list(seq)
+            if len(args) == 3:
+                accs = [(st, "val", args[2])]
+            elif seq:
+                accs, seq = [(st, "val", seq[0])], seq[1:]
+            else:
+                return self.raise_exc(st, "TypeError", node, "reduce", "reduce() of empty iterable with no initial value")
+            for x in seq:
+                nxt = []
+                for (s1, k1, acc) in accs:
+                    if k1 != "val":
+                        nxt.append((s1, k1, acc))
+                    else:
+                        nxt.extend(_apply(self, s1, args[0], [acc, x], node))
+                accs = nxt
+            return accs
     if name == "functools.partial" and args:
         return [(st, "val", PyFn("partial", (args[0], tuple(args[1:]), tuple(sorted(kwargs.items())))))]
     if name in ("itertools.islice",) and 2 <= len(args) <= 3 and not kwargs and all(isinstance(a, int) or a is None for a in args[1:]):
